@@ -90,6 +90,16 @@ def programs(draw):
             inter[i][skey] = {'n0': draw(st.sampled_from([65, 70, 100, 127, 128, 129, 200])), 'refill': 0}
             ops += [['tick', 6], ['req', i, 'resp' if key == 'src' else 'req', draw(st.sampled_from([65, 70, 100, 130]))], ['tick', 12]]
             heal_credit = False
+    elif any(i_['k'] == 'ch' and i_.get('rsrc') and i_.get('src') for i_ in inter) and draw(st.integers(0, 2)) == 0:
+        # a channel responder gives up on the requester's direction (cancels it) while its own publisher still has elements
+        # beyond the credit it got; credit granted afterwards still has to be served
+        i = draw(st.sampled_from([j for j, i_ in enumerate(inter) if i_['k'] == 'ch' and i_.get('rsrc') and i_.get('src')]))
+        inter[i]['sub'] = {'n0': draw(st.sampled_from([1, 2])), 'refill': 0}
+        if len(inter[i]['src'].get('els', [])) < 4:
+            inter[i]['src'] = dict(inter[i]['src'], els=[[2, 0]] * 6)
+        ops += [['tick', 4], ['cancel', i, 'req'], ['tick', draw(st.integers(1, 3))], ['req', i, 'resp', draw(st.integers(1, 3))],
+                ['tick', 4], ['req', i, 'resp', draw(st.integers(1, 8))], ['tick', 12]]
+        heal_credit = False
     elif draw(st.integers(0, 2)) == 0:
         # the last word on credit: a grant, a second one while the first is still being served, then silence - everything
         # that was granted has to be delivered without any further REQUEST_N
